@@ -442,8 +442,25 @@ def run_session(case):
             U(17, [4, (scr_id.get(id(closed_from), 998) + 1) if closed_from is not None else 0, 0])
             super().close_screen(closed_from)
 
+        def _process_screen(self):
+            # the entry this _process_screen is about (the top of the stack when it starts): a setup() that runs commands
+            # may change the stack before the scheduler calls refresh() for that entry
+            scr = self._screen_stack._screens
+            st.setdefault("ps", []).append(scr[-1] if scr else None)
+            try:
+                super()._process_screen()
+            finally:
+                st["ps"].pop()
+
     def top_sd():
         return App.get_scheduler()._screen_stack._screens[-1]
+
+    def cur_sd(ui):
+        # the entry the running _process_screen works on, when it is an entry of this screen; else the top of the stack
+        ps = st.get("ps") or []
+        if ps and ps[-1] is not None and ps[-1].ui_screen is ui:
+            return ps[-1]
+        return top_sd()
 
     counts = {}
 
@@ -475,14 +492,20 @@ def run_session(case):
             su = self.spec[0]
             n = count(self.i, "setup")
             ok = True if not su else (su[n] if n < len(su) else su[-1])
-            U(1, [top_sd().sid, self.i, aid(args), 1 if ok else 0])
+            sc = self.spec[13] if len(self.spec) > 13 else []
+            ent = cur_sd(self)
+            if sc:
+                # a setup() that does something itself before it reports its result
+                U(22, [ent.sid, self.i, aid(args)])
+                do_cmds(self, sc, n)
+            U(1, [ent.sid, self.i, aid(args), 1 if ok else 0])
             if not ok:
                 return False
             return super().setup(args)
 
         def refresh(self, args=None):
             n = count(self.i, "refresh")
-            U(2, [top_sd().sid, self.i, aid(args)])
+            U(2, [cur_sd(self).sid, self.i, aid(args)])
             super().refresh(args)
             pages = self.spec[10]
             for k in range(pages * (HEIGHT - 2) + 1 if pages else 1):
